@@ -29,6 +29,9 @@ func c19Token(r *Rng, t *Tree) string {
 	case 1:
 		return r.Pick(c01Numerals)
 	case 2:
+		if r.Chance(1, 5) {
+			return "--" + key + "=" + r.Pick([]string{"", "o", "os", "os=", "a", "d", "dyn", "s", "v"})
+		}
 		return "--" + key
 	case 3:
 		return "-" + key
